@@ -1,6 +1,7 @@
 /- driver family `pipe.*`: specification, trace acceptor for the parallel generator, serial machine -/
 import Gpv.Model.Pipeline
 import Gpv.Model.PipeInfo
+import Gpv.Model.Stage
 import Gpv.Drv.Util
 namespace Gpv.Drv
 open Gpv Gpv.Pipe
@@ -107,6 +108,36 @@ def acceptTrace (c : Cfg) (xs : List (Outcome Nat Nat)) (tail : Option Nat) (pro
       | none => s!"reject at={k} event={ev} " ++ fmtPS s
   go 0 (PS.init processed yielded) 0 evs
 
+/-- several streams of one stage: events are `<stream>:<event>` (plus `K` = create a stream).  Each event of stream
+    i is accepted by the single-stream acceptor on stream i's state carrying the STAGE's counters, which are written
+    back afterwards — the composition of `Stage.step`s for the event's label and the unobservable `get`/`flush`
+    steps before it. -/
+def acceptStage (c : Cfg) (srcs : List (List (Outcome Nat Nat) × Option Nat)) (p0 y0 : Nat) (evs : List String) : String :=
+  let rec go (k : Nat) (st : Stage Nat Nat) (deliv : List Nat) (evs : List String) : String :=
+    let show_ (st : Stage Nat Nat) : String :=
+      s!"processed={st.processed} yielded={st.yielded} streams=" ++
+      ";".intercalate (st.streams.map fun s => s!"{fmtPC s.pc},{fmtPool s.pool},{s.drawn},{s.taken}," ++ "+".intercalate (s.out.map fmtObs))
+    match evs with
+    | [] => "accept " ++ show_ st
+    | ev :: rest =>
+      if ev = "K" then go (k + 1) st.create (deliv ++ [0]) rest
+      else
+        match ev.splitOn ":" with
+        | [si, e] =>
+          match si.toNat? with
+          | some i =>
+            match st.streams[i]?, srcs[i]? with
+            | some s, some src =>
+              let s0 : PS Nat Nat := { s with processed := st.processed, yielded := st.yielded }
+              match acceptEvent c src.1 src.2 (src.1.length + 4) s0 (deliv.getD i 0) e with
+              | some (s', d') =>
+                go (k + 1) { streams := st.streams.set i s', processed := s'.processed, yielded := s'.yielded } (deliv.set i d') rest
+              | none => s!"reject at={k} event={ev} " ++ show_ st
+            | _, _ => s!"reject at={k} event={ev} (no such stream) " ++ show_ st
+          | none => "bad-op"
+        | _ => "bad-op"
+  go 0 (Stage.init p0 y0) [] evs
+
 /-! serial machine -/
 def parseSOutcome (s : String) : Option (SOutcome Nat Nat) :=
   if s = "n" then some (.plain none)
@@ -189,6 +220,25 @@ def pipeDispatch (ws : List String) : List String :=
         | .direct _ => ["direct"]
         | .stream _ => ["stream"]
       | none => ["bad-op"]
+  | "pipe.stage" :: nw :: ec :: sk :: pr :: yl :: rest =>
+      -- pipe.stage nw ec skip p0 y0 | tail_0 outcomes_0… | tail_1 outcomes_1… | … | events…
+      match nw.toNat?, ec.toNat?, pr.toNat?, yl.toNat? with
+      | some nw, some ec, some pr, some yl =>
+        let groups := splitBars' rest
+        match groups.reverse with
+        | evs :: srcGroups =>
+          let srcs? := srcGroups.reverse.mapM fun g =>
+            match g with
+            | t :: outs => do
+                let tail ← parseTail t
+                let xs ← outs.mapM parseOutcome
+                pure (xs, tail)
+            | [] => none
+          match srcs? with
+          | some srcs => [acceptStage ⟨nw, ec, sk = "1"⟩ srcs pr yl evs]
+          | none => ["bad-op"]
+        | [] => ["bad-op"]
+      | _, _, _, _ => ["bad-op"]
   | "pipe.sspec" :: sk :: rest =>
       match splitBars' rest with
       | [[t], outs] =>
